@@ -72,21 +72,18 @@ theorem cast_value_meets_c (t : IType) (ht : t.std ≠ .bool) (x : W64) : castVa
   have hb : t ≠ .bool := by intro e; subst e; exact ht rfl
   have e8s : ∀ x : W64, (x.setWidth 8).signExtend 64 = wrapI 64 (x.toInt.bmod (2 ^ 8)) := fun x => by
     apply eq_wrapI; rw [BitVec.toInt_signExtend_of_le (by decide), BitVec.toInt_setWidth]
-    rw [Int.bmod_bmod_of_dvd (by decide)]
+    have := x.isLt; rw [BitVec.toInt_eq_toNat_cond]; simp only [Int.bmod_def]; split <;> omega
   have e16s : ∀ x : W64, (x.setWidth 16).signExtend 64 = wrapI 64 (x.toInt.bmod (2 ^ 16)) := fun x => by
     apply eq_wrapI; rw [BitVec.toInt_signExtend_of_le (by decide), BitVec.toInt_setWidth]
-    rw [Int.bmod_bmod_of_dvd (by decide)]
+    have := x.isLt; rw [BitVec.toInt_eq_toNat_cond]; simp only [Int.bmod_def]; split <;> omega
   have e32s : ∀ x : W64, (x.setWidth 32).signExtend 64 = wrapI 64 (x.toInt.bmod (2 ^ 32)) := fun x => by
     apply eq_wrapI; rw [BitVec.toInt_signExtend_of_le (by decide), BitVec.toInt_setWidth]
-    rw [Int.bmod_bmod_of_dvd (by decide)]
+    have := x.isLt; rw [BitVec.toInt_eq_toNat_cond]; simp only [Int.bmod_def]; split <;> omega
   have e64s : ∀ x : W64, x = wrapI 64 (x.toInt.bmod (2 ^ 64)) := fun x => by
     apply eq_wrapI; rw [Int.bmod_bmod]; exact (BitVec.toInt_bmod_cancel x).symm
   have eu : ∀ (k : Nat) (x : W64), k ≤ 64 → (x.setWidth k).setWidth 64 = wrapN 64 (x.toNat % 2 ^ k) := fun k x hk => by
     apply eq_wrapN
     simp only [BitVec.toNat_setWidth]
-    have : 2 ^ k ≤ 2 ^ 64 := Nat.pow_le_pow_right (by decide) hk
-    have := Nat.mod_lt x.toNat (Nat.two_pow_pos k)
-    omega
   have e64u : ∀ x : W64, x = wrapN 64 (x.toNat % 2 ^ 64) := fun x => by
     apply eq_wrapN; have := x.isLt; omega
   cases t <;> first
@@ -95,5 +92,164 @@ theorem cast_value_meets_c (t : IType) (ht : t.std ≠ .bool) (x : W64) : castVa
         Bool.false_eq_true, reduceCtorEq]
        first | exact e8s x | exact e16s x | exact e32s x | exact e64s x
              | exact eu 8 x (by decide) | exact eu 16 x (by decide) | exact eu 32 x (by decide) | exact e64u x)
+
+/-- … the full statement is FALSE for `_Bool` on the current code: `cast_value` (and the run-time
+`cast`, which emits `UEXT8`) truncates to 8 bits instead of testing for non-zero (C11 6.3.1.2):
+`(_Bool) 256` is 0 and `(_Bool) 2` is 2 under c2mir.  Replayed on the real code by
+corpus/C07/kf-bool-conversion.c (known finding C07:bool-conversion). -/
+theorem cast_value_bool_wrong :
+    castValue .bool 256 ≠ cConv .bool 256 ∧ castValue .bool 2 ≠ cConv .bool 2 := by decide
+
+theorem cast_value_bool_partial (x : W64) (h : x = 0 ∨ x = 1) : castValue .bool x = cConv .bool x := by
+  rcases h with rfl | rfl <;> decide
+
+/-- **Compile-time evaluation = run-time evaluation.**  For every binary arithmetic / bitwise /
+shift operator, every type `t` operands are converted to and ALL 64-bit operand images: whenever
+the MIR instruction the code generator selects for `(o, t)` has a documented result `r'` on the
+converted operands, c2mir's constant folder yields the image of the same value (`r'` normalised
+to `t`: for 32-bit instructions MIR.md defines only the low half).  In particular the folder does
+not fail or differ for any defined division, modulo, shift, or wrap-around. -/
+theorem fold_eq_runtime (o : BinOp) (t : IType) (ht : promote t = t) (a b r' : W64)
+    (h : runtimeSem (insnFor o t) (castValue t a) (castValue t b) = some r') :
+    foldConst o t a b = some (castValue t r') := by
+  have h64 : ∀ (o : BinOp) (a b r' : W64), docSem (aopS o) false a b = some r' → (cS o a b).map id = some r' :=
+    fun o a b r' h => by
+      rw [cS_docS (by decide)]; simpa [docSem] using h
+  have h64u : ∀ (o : BinOp) (a b r' : W64), docSem (aopU o) false a b = some r' → (cU o a b).map id = some r' :=
+    fun o a b r' h => by
+      rw [cU_docU (by decide)]; simpa [docSem] using h
+  cases t <;> first
+    | exact absurd ht (by decide)
+    | (rw [insnFor_signed o _ rfl] at h
+       first
+         | exact fold_rt_s32 o _ _ r' h
+         | exact h64 o a b r' h)
+    | (rw [insnFor_unsigned o _ rfl] at h
+       first
+         | exact fold_rt_u32 o _ _ r' h
+         | exact h64u o a b r' h)
+
+/-- shifts: the count is converted to its OWN promoted type `rt` by the folder and to `t` by the
+generated code; both see the same count whenever it is in the range C defines (`0 ≤ count < width`) -/
+theorem fold_shift_eq_runtime (o : BinOp) (_ho : o = .lsh ∨ o = .rsh) (t rt : IType) (ht : promote t = t)
+    (a b r' : W64) (hb : castValue rt b = castValue t b)
+    (h : runtimeSem (insnFor o t) (castValue t a) (castValue t b) = some r') :
+    foldBin o t rt a b = some (castValue t r') := by
+  have := fold_eq_runtime o t ht a b r' h
+  simpa [foldConst, foldBin, hb] using this
+
+/-- non-vacuity: `-7 / 2` in `int`, `1u << 31`, `-8 >> 1`, and an undefined case -/
+example : foldConst .div .int (-7) 2 = some (-3) ∧
+    runtimeSem (insnFor .div .int) (castValue .int (-7)) (castValue .int 2) = some (-3) := by decide
+example : foldConst .lsh .uint 1 31 = some 0x80000000 := by decide
+example : foldConst .rsh .int (-8) 1 = some (-4) ∧ foldConst .rsh .uint (-8) 1 = some 0x7FFFFFFC := by decide
+example : runtimeSem (insnFor .div .int) 1 0 = none ∧ foldConst .div .int 1 0 = none := by decide
+
+/-- **Comparisons**: the folder's result is the documented result of the selected compare
+instruction, and both are the C comparison of the operands' mathematical values after the usual
+arithmetic conversions (unsigned operands are compared as naturals, signed ones as integers). -/
+theorem cmp_eq_runtime (c : CmpOp) (t : IType) (ht : promote t = t) (a b : W64) :
+    runtimeSem (cmpFor c t) (castValue t a) (castValue t b) = some (foldCmp c t a b) ∧
+    foldCmp c t a b = b2w (cCmp c (valOf t (castValue t a)) (valOf t (castValue t b))) := by
+  have hs : ∀ t : IType, t.signed = true →
+      foldCmp c t a b = b2w (cCmpS c (castValue t a) (castValue t b)) ∧
+      valOf t (castValue t a) = (castValue t a).toInt ∧ valOf t (castValue t b) = (castValue t b).toInt :=
+    fun t h => by simp [foldCmp, valOf, h]
+  have hu : ∀ t : IType, t.signed = false →
+      foldCmp c t a b = b2w (cCmpU c (castValue t a) (castValue t b)) ∧
+      valOf t (castValue t a) = ((castValue t a).toNat : Int) ∧ valOf t (castValue t b) = ((castValue t b).toNat : Int) :=
+    fun t h => by simp [foldCmp, valOf, h]
+  cases t
+  case int =>
+    obtain ⟨e1, e2, e3⟩ := hs .int rfl
+    rw [cmpFor_signed c _ rfl, e1, e2, e3, ← cCmpS_val]
+    exact ⟨cmp_rt_s32 c _ _, rfl⟩
+  case long =>
+    obtain ⟨e1, e2, e3⟩ := hs .long rfl
+    rw [cmpFor_signed c _ rfl, e1, e2, e3, ← cCmpS_val]
+    exact ⟨cmp_rt_s64 c _ _, rfl⟩
+  case llong =>
+    obtain ⟨e1, e2, e3⟩ := hs .llong rfl
+    rw [cmpFor_signed c _ rfl, e1, e2, e3, ← cCmpS_val]
+    exact ⟨cmp_rt_s64 c _ _, rfl⟩
+  case uint =>
+    obtain ⟨e1, e2, e3⟩ := hu .uint rfl
+    rw [cmpFor_unsigned c _ rfl, e1, e2, e3, ← cCmpU_val]
+    exact ⟨cmp_rt_u32 c _ _, rfl⟩
+  case ulong =>
+    obtain ⟨e1, e2, e3⟩ := hu .ulong rfl
+    rw [cmpFor_unsigned c _ rfl, e1, e2, e3, ← cCmpU_val]
+    exact ⟨cmp_rt_u64 c _ _, rfl⟩
+  case ullong =>
+    obtain ⟨e1, e2, e3⟩ := hu .ullong rfl
+    rw [cmpFor_unsigned c _ rfl, e1, e2, e3, ← cCmpU_val]
+    exact ⟨cmp_rt_u64 c _ _, rfl⟩
+  all_goals exact absurd ht (by decide)
+
+/-- **Compare-and-branch selection.**  For every comparison operator and operand type, the CURRENT
+`get_mir_type_insn_code` and `get_compare_branch_code` select the compare instruction and the
+branch instruction `cmpFor` names, and that branch is taken exactly when the C comparison of the
+converted operands holds. -/
+theorem cmp_branch_table (c : CmpOp) (t : IType) (ht : promote t = t) :
+    insnName (get_mir_type_insn_code t.toCTy (nodeOfCmp c)) = some (opName (cmpFor c t).1 (cmpFor c t).2) ∧
+    insnName (get_compare_branch_code (get_mir_type_insn_code t.toCTy (nodeOfCmp c)))
+      = some (brName (cmpFor c t).1 (cmpFor c t).2) ∧
+    ∀ a b : W64, docBranch (cmpFor c t).1 (cmpFor c t).2 (castValue t a) (castValue t b)
+      = cCmp c (valOf t (castValue t a)) (valOf t (castValue t b)) := by
+  have h1 := gen_cmp_table; have h2 := gen_branch_table
+  rw [List.all_eq_true] at h1 h2
+  have h1' := h1 c (CmpOp.mem_all c); have h2' := h2 c (CmpOp.mem_all c)
+  rw [List.all_eq_true] at h1' h2'
+  refine ⟨by simpa using h1' t (arith_of_promoted t ht), by simpa using h2' t (arith_of_promoted t ht), ?_⟩
+  intro a b
+  obtain ⟨hr, hf⟩ := cmp_eq_runtime c t ht a b
+  unfold runtimeSem at hr
+  rw [docBranch, hr, hf]
+  exact b2w_ne_zero _
+
+example : foldCmp .lt .uint (-1) 1 = 0 ∧ foldCmp .lt .int (-1) 1 = 1 := by decide
+
+/-- **Bit-field round trip.**  For every storage-unit content `u`, value `v`, bit offset and width
+with `1 ≤ w`, `off + w ≤ 64`, signed or unsigned: reading the member back after the emitted store
+sequence yields the low `w` bits of `v`, sign- resp. zero-extended, and the store leaves every bit
+of the unit outside `[off, off + w)` unchanged. -/
+theorem bf_roundtrip (sg : Bool) (u v : W64) (off w : Nat) (hw : 1 ≤ w) (h : off + w ≤ 64) :
+    (∀ i, i < 64 → (bfExtract sg (bfInsert sg u v off w) off w).getLsbD i = extBit sg w v i) ∧
+    (∀ i, i < 64 → (i < off ∨ off + w ≤ i) → (bfInsert sg u v off w).getLsbD i = u.getLsbD i) := by
+  constructor
+  · intro i hi
+    rw [bfExtract_bit sg _ off w i hw h hi, extBit]
+    by_cases h1 : i < w
+    · rw [if_pos h1, if_pos h1, bfInsert_bit sg u v off w (off + i) hw h (by omega),
+        if_pos ⟨by omega, by omega⟩]
+      congr 1; omega
+    · rw [if_neg h1, if_neg h1, bfInsert_bit sg u v off w (off + w - 1) hw h (by omega),
+        if_pos ⟨by omega, by omega⟩]
+      congr 2; omega
+  · intro i hi ho
+    rw [bfInsert_bit sg u v off w i hw h hi, if_neg (by omega)]
+
+/-- static initialisers: the word `add_bit_field` computes at compile time is the word the emitted
+store sequence would produce -/
+theorem bf_static_init (sg : Bool) (u v : W64) (off w : Nat) :
+    addBitField sg u v off w = bfInsert sg u v off w := addBitField_eq_bfInsert sg u v off w
+
+example : bfInsert true 0xFFFF 5 4 3 = 0xFFDF ∧ bfExtract true 0xFFDF 4 3 = -3 ∧
+    bfExtract false 0xFFDF 4 3 = 5 := by decide
+
+/-- **Small block move** (`size ≤ 5` uses the byte loop; larger sizes call `memcpy`): for
+non-overlapping source and destination the loop copies exactly the bytes `[0, size)` and changes
+nothing else. -/
+theorem block_move_copies (dst src size : Nat) (m : Mem)
+    (hdis : dst + size ≤ src ∨ src + size ≤ dst) (a : Nat) :
+    blockMove dst src size m a = if dst ≤ a ∧ a < dst + size then m (src + (a - dst)) else m a := by
+  unfold blockMove
+  by_cases h0 : size = 0
+  · subst h0; simp; intro h1 h2; omega
+  · rw [if_neg h0]
+    exact blockMoveLoop_spec dst src size size m (by omega) (Nat.le_refl _)
+      (fun i j hi hj => by omega) a
+
+example : blockMove 10 20 3 (fun a => BitVec.ofNat 8 a) 11 = 21 := by decide
 
 end MirVerif.CArith
